@@ -112,6 +112,7 @@ pub fn op_specs() -> Vec<OpSpec> {
         add(&pn("fold_keyed", p), FoldKeyed(p, Comb::Ord), vec![None], true);
         add(&pn("reduce_keyed", p), ReduceKeyed(p, Comb::Ord), vec![None], true);
         add(&pn("scan", p), Scan(p), vec![None], true);
+        add(&pn("scan_stop", p), ScanStop(p), vec![None], true);
         add(&pn("lattice_fold", p), LatticeFold(p), vec![Some(MapFn::ToMax)], true);
         add(&pn("lattice_reduce", p), LatticeReduce(p), vec![Some(MapFn::ToMax)], true);
     }
